@@ -241,6 +241,9 @@ func (x *Exec) verify(fn *ssa.Function, ct *Contract, rep *FuncReport) {
 		if gv.Sort == "bool" {
 			t = types.Typ[types.Bool]
 		}
+		if gv.Sort == "float" {
+			t = types.Typ[types.Float64]
+		}
 		fake := &ssa.Alloc{Comment: gv.Name}
 		l := x.newCell(st, t, gv.Name, fake)
 		fr.cellOf[fake] = l.CellID
